@@ -9,7 +9,7 @@ through the public API of SequenceParameters wrappers.
 import copy
 
 from ..kernel import Violation, DrawCap, feq, canon, cjson
-from ..gen import gen_seq, seq_class_of, AA
+from ..gen import gen_seq, seq_class_of, AA, gen_special
 from ..clock import SimClock, MODES
 from ..rng import RngModule, MTRandom, TapeRandom, UniformDriver, ListDriver
 from ..minimise import list_candidates
@@ -49,8 +49,11 @@ def gen_plan(streams, tier):
     roots = []
     for _ in range(nroot):
         n = rnd.choice((rnd.randrange(1, 5), rnd.randrange(4, 12), rnd.randrange(8, 25), rnd.randrange(15, 41)))
-        roots.append(gen_seq(rnd, n, rnd.choice(("idp", "polyampholyte", "polyampholyte", "polyelectrolyte", "lowcomplexity",
-                                                  "nocharge", "uniform", "onecharge", "sty_rich"))))
+        if rnd.random() < 0.12:
+            roots.append(gen_special(rnd))        # raw kappa above 1: exercises the clamp branch of kappa()
+        else:
+            roots.append(gen_seq(rnd, n, rnd.choice(("idp", "polyampholyte", "polyampholyte", "polyelectrolyte", "lowcomplexity",
+                                                      "nocharge", "uniform", "onecharge", "sty_rich"))))
     rng_mode = rnd.choice(("mt", "mt", "tape", "tape", "biased", "biased"))
     clock_mode = rnd.choice(MODES)
     move_w = {m: rnd.choice((0, 1, 1, 2)) for m in MOVES}
@@ -166,6 +169,10 @@ def corpus():
     mk("warm_cache_chain", ["GKEGKEGKEGKEGSTY"], [{"k": "warm", "o": 0, "how": "kappa"}] +
        [{"k": "move", "o": -1, "m": m, "fz": "none", "ft": "set", "panel": True} for m in MOVES] +
        [{"k": "warm", "o": -1, "how": "dmax_perm"}, {"k": "shuffle_api", "o": -1, "fz": "half", "ft": "list", "panel": True}, {"k": "permutant", "o": -1}])
+    mk("kappa_clamp_branch_then_moves", ["KEEGEEK", "ETGASKKRRKRQPTQGNASGPATTTN", "KKEEEGK"],
+       [{"k": "warm", "o": o, "how": "kappa"} for o in (0, 1, 2)] +
+       [{"k": "move", "o": o, "m": m, "fz": "none", "ft": "set", "panel": True} for o in (0, 1, 2) for m in ("full_shuffle", "swapRandChargeRes")] +
+       [{"k": "shuffle_api", "o": o, "fz": "none", "ft": "set", "panel": False} for o in (0, 1, 2)])
     mk("same_seed_twice", ["GKEGKEGKEGKEGSTY"], [{"k": "move", "o": 0, "m": "full_shuffle", "fz": "none", "ft": "set", "panel": False}] * 4,
        rng_mode="mt", clock_mode="stall")
     # scripted tape: 98 delta-preserving block proposals (G<->G), then one that changes delta on the 99th attempt
@@ -456,11 +463,18 @@ def execute(plan, ctx):
             key = "move_raised:" + key_site
             msg = "%s on %r (N=%d) raised %r" % (where, pseq, N, raised)
             if key_site == "permute_cluster_charges":
-                if isinstance(raised, SequenceException) and "Not enough charged" in str(raised):
+                # the clustering move is not one of "the shuffles and swaps" that must succeed for every sequence:
+                # a refusal by name (the package's own SequenceException, whatever its wording) is its right
+                if isinstance(raised, SequenceException):
                     ctx.probe("cluster_named_refusal")
                     check_parent(parent, before, where, key_site)
                     continue
             if key_site == "permute_block_swap":
+                if N < 4 and isinstance(raised, SequenceException):
+                    # no two disjoint blocks exist: refusing by name is acceptable (the open finding is the bare ValueError)
+                    ctx.probe("block_swap_named_refusal_N_lt_4")
+                    check_parent(parent, before, where, key_site)
+                    continue
                 if N < 4:
                     key += ":N<4"
                     ctx.probe("block_swap_N_lt_4")
